@@ -570,6 +570,12 @@ impl GroupConfig {
             .input_paths(self.paths.iter().cloned()))
     }
 
+    /// Returns the input paths that lead through symbolic links:
+    /// what they resolve to, and the path as given, made absolute.
+    pub fn root_aliases(&self) -> Vec<(String, String)> {
+        PathSelector::root_aliases(&Arc::new(self.base_dir.clone()), self.paths.iter().cloned())
+    }
+
     pub fn group_filter(&self) -> FileGroupFilter {
         FileGroupFilter {
             replication: if self.unique {
@@ -844,6 +850,12 @@ pub struct DedupeConfig {
     /// this flag is set automatically if `--transform` was used.
     #[arg(long)]
     pub no_check_size: bool,
+
+    /// The input paths of the earlier `fclones group` command that lead through symbolic
+    /// links: what they resolve to and the path as given. The files are reported by their
+    /// resolved paths, the path patterns may describe them below the input paths as given.
+    #[arg(skip)]
+    pub root_aliases: Vec<(String, String)>,
 }
 
 impl DedupeConfig {
